@@ -16,3 +16,7 @@ package dnsclient
 //@   loop 1 invariant true
 //@   ensures err == nil ==> r.Id == m.Id
 //@   ensures err == nil && len(m.Question) > 0 ==> qMatch(m.Question[0], r.Question)
+//@
+//@ # ---- C10: a frame is written as prefix + payload in one gathered write; nothing but the connection is touched
+//@ func WriteFrameFrom
+//@   modifies nothing
